@@ -5,6 +5,7 @@ from ast import AST
 from collections import defaultdict
 from collections.abc import Mapping
 from inspect import Signature
+from keyword import iskeyword
 from typing import Union
 
 from ...code_tools.ast_templater import ast_substitute
@@ -156,7 +157,13 @@ class BuiltinBroachingCodeGenerator(BroachingCodeGenerator):
                 args.append(sub_ast)
             elif isinstance(arg, KeywordArg):
                 sub_ast = self._gen_plan_element_dispatch(state, arg.element)
-                keywords.append(ast.keyword(arg=arg.key, value=sub_ast))  # type: ignore[call-overload]
+                if iskeyword(arg.key) or arg.key == "__debug__":
+                    # keys of TypedDict and names of pydantic fields can be keywords, they are passed as ``**{'key': value}``
+                    keywords.append(
+                        ast.keyword(value=ast.Dict(keys=[ast.Constant(arg.key)], values=[sub_ast])),  # type: ignore[call-overload]
+                    )
+                else:
+                    keywords.append(ast.keyword(arg=arg.key, value=sub_ast))  # type: ignore[call-overload]
             elif isinstance(arg, UnpackMapping):
                 sub_ast = self._gen_plan_element_dispatch(state, arg.element)
                 keywords.append(ast.keyword(value=sub_ast))  # type: ignore[call-overload]
@@ -175,7 +182,7 @@ class BuiltinBroachingCodeGenerator(BroachingCodeGenerator):
     def _gen_accessor_element(self, state: GenState, element: AccessorElement[BroachingPlan]) -> AST:
         target_expr = self._gen_plan_element_dispatch(state, element.target)
         if isinstance(element.accessor, DescriptorAccessor):
-            if element.accessor.attr_name.isidentifier():
+            if element.accessor.attr_name.isidentifier() and not iskeyword(element.accessor.attr_name):
                 return ast_substitute(
                     f"__target_expr__.{element.accessor.attr_name}",
                     target_expr=target_expr,
